@@ -59,13 +59,25 @@ def type_features(t: list | None) -> set[str]:
     return out
 
 
+# un-annotated parameter with a default: the tool takes the type the type checker infers for the default expression; an
+# expression over literals has one ('not True' bool, '--1' / '~2' int), a reference to a module variable has none.
+UNTYPED_EXPR_WITHOUT_TYPE = {"-CONST_X"}
+
+
+def _no_type(p: dict) -> bool:
+    if p["ann"] is not None:
+        return False
+    return p["default"] is None or (p["default"][0] == "expr" and p["default"][1] in UNTYPED_EXPR_WITHOUT_TYPE)
+
+
 def func_features(f: dict, is_ctor: bool = False) -> tuple[set[str], list[str]]:
     feats: set[str] = set()
     tags: list[str] = []
+    unk_sources: set[str] = set()
     for p in f["params"]:
         if p["kind"] in {"vararg", "kwarg"}:
             feats.add("variadic")
-        if p["ann"] is None and (p["default"] is None or p["default"][0] == "expr"):
+        if _no_type(p):
             feats.add("param_untyped")
         feats |= type_features(p["ann"])
         if p["kind"] == "posonly" and p["default"] is not None:
@@ -76,6 +88,10 @@ def func_features(f: dict, is_ctor: bool = False) -> tuple[set[str], list[str]]:
             feats.add("req_name_only")
         if p["default"] is not None and p["default"][0] == "expr":
             feats.add("unknown_default")
+            unk_sources.add("untyped" if _no_type(p) else "typed")
+    if unk_sources == {"untyped"}:
+        # the only unparsable defaults sit on un-annotated parameters: the tool drops such a default and its marker (open finding)
+        tags.append("param:untyped_unknown_default")
     if not is_ctor:
         if f["kind"] == "classmethod":
             feats.add("class_method")
@@ -117,7 +133,11 @@ def _function(draw: Any, namer: gen.Namer, kind: str = "function", is_ctor: bool
         d = None
         if i >= first_default:
             d = draw(st.one_of(gen.literal_defaults(), st.sampled_from(UNKNOWN_DEFAULTS))) if not untyped else None
-            if untyped:
+            if untyped and draw(st.booleans()):
+                # un-annotated with a default the tool cannot evaluate: no type from either source, and (position-only) two
+                # flagged features on one parameter (seeded change C20_r5)
+                d = draw(st.sampled_from(UNKNOWN_DEFAULTS))
+            elif untyped:
                 # an un-annotated parameter after a default must have a default too: make it annotated instead
                 untyped = False
                 d = draw(gen.literal_defaults())
@@ -126,6 +146,10 @@ def _function(draw: Any, namer: gen.Namer, kind: str = "function", is_ctor: bool
         params.append(gt.param(namer.fresh("va"), "vararg", draw(_types()) if draw(st.booleans()) else None))
     for _ in range(draw(st.integers(0, 2)) if draw(st.booleans()) else 0):
         has_def = draw(st.booleans())
+        if draw(st.integers(0, 3)) == 0:
+            # un-annotated keyword-only parameter: required (two flagged features on one parameter) or with an unknown default
+            params.append(gt.param(namer.fresh("k"), "kwonly", None, draw(st.sampled_from(UNKNOWN_DEFAULTS)) if has_def else None))
+            continue
         params.append(gt.param(namer.fresh("k"), "kwonly", draw(_types()), draw(gen.literal_defaults()) if has_def else None))
     if draw(st.integers(0, 4)) == 0:
         params.append(gt.param(namer.fresh("kw"), "kwarg", draw(_types()) if draw(st.booleans()) else None))
@@ -243,7 +267,7 @@ def judge(case: dict) -> dict:
         missing, extra = expected - got, got - expected
         if missing:
             for m in sorted(missing):
-                discs.append(Discrepancy.make("marker_missing", el, f"expected marker class {m}; block has {sorted(got)}", tags + [f"marker:{m}"]))
+                discs.append(Discrepancy.make("marker_missing", el, f"expected marker class {m}; block has {sorted(got)}", tags + [f"marker:{m}"] + [f"{t}+marker:{m}" for t in tags]))
         if extra:
             for m in sorted(extra):
                 discs.append(Discrepancy.make("marker_unexpected", el, f"unexpected marker class {m}; expected {sorted(expected)}", tags + [f"marker:{m}"]))
@@ -273,7 +297,7 @@ def judge(case: dict) -> dict:
                 res["stats"].append("generic_class_type_parameter:" + ("bound" if tp["bound"] else "values" if tp["values"] else "free"))
             check((*owner, d["name"]), "class", feats, tags)
             if d.get("ctor"):
-                untyped_params = {p["name"] for p in d["ctor"]["params"] if p["ann"] is None and p["default"] is None}
+                untyped_params = {p["name"] for p in d["ctor"]["params"] if p["ann"] is None}  # the attribute takes the parameter's annotation only, never a type inferred from its default
                 for a in d["ctor"].get("init_attrs", []):
                     check((*owner, d["name"], a["name"]), "attr", {"attr_untyped"} if a["from"] in untyped_params else set(), [])
         elif d["t"] == "attr":
